@@ -177,9 +177,10 @@ def run_ops(binary, args, text, timeout=3000):
 # ------------------------------------------------------------------ cases
 
 class Case:
-    __slots__ = ("op", "idx", "args", "family")
+    __slots__ = ("op", "idx", "args", "family", "expect")
 
-    def __init__(self, op, args, idx=(), family="random"):
+    def __init__(self, op, args, idx=(), family="random", expect=None):
+        self.expect = expect
         self.op = op
         self.args = [F(a) for a in args]
         self.idx = list(idx)
@@ -360,6 +361,12 @@ def run_oracles(cases, seeds=(1,)):
         for c, a in zip(cases, impl):
             if a in ("unknown-op", "bad-args", "bad-line"):
                 raise MachineryError(f"protocol error on oracle `{c.line()}`: {a}")
+            if c.expect is not None:
+                total += 1
+                per[c.op] = per.get(c.op, 0) + 1
+                if a.split(" ")[0] != c.expect:
+                    fails.append((c, a, seed))
+                continue
             if a == "skip":
                 skipped += 1
                 continue
